@@ -74,7 +74,7 @@ func init() {
 		Rule: "cases = PRNG merges of 1..4 inputs (built, memory-/file-loaded, previously merged up to depth 2; equal or sub-schemas; input and output chunk modes in {1,2,3,5,7,64,1024,1025}) with a deletion pattern per input (nil, empty, random third, all-but-few, everything, one run, one doc); forced: zero survivors, empty inputs, single input, jumbo (>1024 surviving docs in a doc-value field), copy path; " +
 			"non-trivial = (>=2 inputs and >=1 deletion) or differing field lists or a multi-chunk term in the output; distinct = hash of (input model dumps, modes, bitmaps)",
 		Assumptions: InputContract,
-		Phases:      []runner.Phase{{Name: "model", Cases: cases(1500, 40000), Run: c02Run}},
+		Phases:      []runner.Phase{{Name: "model", Cases: cases(12000, 300000), Run: c02Run}},
 		Floors: func(string) map[string]int64 {
 			return map[string]int64{"stored_copy_path_inputs": 5, "stored_reencode_path_inputs": 50, "onehit_terms_produced": 50, "lists_over_1024_docs": 1, "zero_survivor_merges": 1, "merges_differing_field_lists": 20}
 		},
